@@ -17,8 +17,8 @@ pub fn trim_ascii(s: &str) -> &str {
 #[derive(Clone, Debug)]
 pub struct Row {
     /// `group:bit` (None when the format prints dashes: the item is not part of the output)
-    pub outp: Option<(u64, u64)>,
-    pub addr: u64,
+    pub outp: Option<(u128, u128)>,
+    pub addr: u128,
     /// data digits in row order, group separators / radix prefixes removed
     pub digits: Vec<char>,
     /// source text, ASCII-trimmed
@@ -30,13 +30,13 @@ pub struct Row {
 /// One row of `addrspan`.
 #[derive(Clone, Debug)]
 pub struct AddrRow {
-    pub outp: Option<(u64, u64)>,
-    pub addr: u64,
+    pub outp: Option<(u128, u128)>,
+    pub addr: u128,
     pub file: String,
-    pub line_start: u64,
-    pub col_start: u64,
-    pub line_end: u64,
-    pub col_end: u64,
+    pub line_start: u128,
+    pub col_start: u128,
+    pub line_end: u128,
+    pub col_end: u128,
     pub at_line: usize,
 }
 
@@ -46,19 +46,19 @@ fn all_dashes(s: &str) -> bool {
 }
 
 /// `g:b` in the given radix, or dashes.
-pub fn parse_outp(s: &str, radix: u32) -> Result<Option<(u64, u64)>, String> {
+pub fn parse_outp(s: &str, radix: u32) -> Result<Option<(u128, u128)>, String> {
     let s = trim_ascii(s);
     if all_dashes(s) {
         return Ok(None);
     }
     let Some((g, b)) = s.split_once(':') else { return Err(format!("outp field `{}` is not `group:bit`", s)) };
-    let g = u64::from_str_radix(trim_ascii(g), radix).map_err(|_| format!("outp group `{}`", g))?;
-    let b = u64::from_str_radix(trim_ascii(b), radix).map_err(|_| format!("outp bit `{}`", b))?;
+    let g = u128::from_str_radix(trim_ascii(g), radix).map_err(|_| format!("outp group `{}`", g))?;
+    let b = u128::from_str_radix(trim_ascii(b), radix).map_err(|_| format!("outp bit `{}`", b))?;
     Ok(Some((g, b)))
 }
 
-pub fn parse_num(s: &str, radix: u32) -> Result<u64, String> {
-    u64::from_str_radix(trim_ascii(s), radix).map_err(|_| format!("number `{}` (radix {})", trim_ascii(s), radix))
+pub fn parse_num(s: &str, radix: u32) -> Result<u128, String> {
+    u128::from_str_radix(trim_ascii(s), radix).map_err(|_| format!("number `{}` (radix {})", trim_ascii(s), radix))
 }
 
 /// `annotated`: ` outp | addr | data ; source`. The header (` outp | addr | data (base N)`) and blank lines
@@ -190,12 +190,12 @@ pub fn parse_addrspan(text: &str, radix: u32) -> (Vec<AddrRow>, Vec<String>) {
             junk.push(line.to_string());
             continue;
         }
-        let nums: Vec<Result<u64, _>> = parts[..4].iter().map(|p| trim_ascii(p).parse::<u64>()).collect();
+        let nums: Vec<Result<u128, _>> = parts[..4].iter().map(|p| trim_ascii(p).parse::<u128>()).collect();
         if nums.iter().any(|r| r.is_err()) {
             junk.push(line.to_string());
             continue;
         }
-        let v: Vec<u64> = nums.into_iter().map(|r| r.unwrap()).collect();
+        let v: Vec<u128> = nums.into_iter().map(|r| r.unwrap()).collect();
         rows.push(AddrRow {
             outp,
             addr,
@@ -235,7 +235,7 @@ pub fn parse_negative_symbols(text: &str) -> Vec<(String, i128)> {
     v
 }
 
-pub fn parse_symbols(text: &str) -> (Vec<(String, u64)>, Vec<String>) {
+pub fn parse_symbols(text: &str) -> (Vec<(String, u128)>, Vec<String>) {
     let mut v = vec![];
     let mut junk = vec![];
     for line in text.split('\n') {
@@ -253,8 +253,8 @@ pub fn parse_symbols(text: &str) -> (Vec<(String, u64)>, Vec<String>) {
             continue;
         }
         let parsed = match val.strip_prefix("0x") {
-            Some(h) => u64::from_str_radix(h, 16).ok(),
-            None => val.parse::<u64>().ok(),
+            Some(h) => u128::from_str_radix(h, 16).ok(),
+            None => val.parse::<u128>().ok(),
         };
         match parsed {
             Some(x) => v.push((trim_ascii(n).to_string(), x)),
@@ -265,7 +265,7 @@ pub fn parse_symbols(text: &str) -> (Vec<(String, u64)>, Vec<String>) {
 }
 
 /// `mesen-mlb`: `<type>:<hex offset>:<label>` per line.
-pub fn parse_mlb(text: &str) -> (Vec<(String, u64, String)>, Vec<String>) {
+pub fn parse_mlb(text: &str) -> (Vec<(String, u128, String)>, Vec<String>) {
     let mut v = vec![];
     let mut junk = vec![];
     for line in text.split('\n') {
@@ -278,7 +278,7 @@ pub fn parse_mlb(text: &str) -> (Vec<(String, u64, String)>, Vec<String>) {
             junk.push(line.to_string());
             continue;
         }
-        match u64::from_str_radix(f[1], 16) {
+        match u128::from_str_radix(f[1], 16) {
             Ok(x) => v.push((f[0].to_string(), x, f[2].to_string())),
             Err(_) => junk.push(line.to_string()),
         }
